@@ -143,7 +143,9 @@ def rand_scenario(
         operation=rng.choice([None, "opname"]),
     )
     if p_attempt_timeout and rng.random() < p_attempt_timeout:
-        cfg["attempt_timeout"] = 30.0  # configured but never allowed to fire (that would depend on real time)
+        # configured but never allowed to fire (that would depend on real time): half a minute, or "effectively none" spelled as a
+        # huge / infinite number of seconds
+        cfg["attempt_timeout"] = rng.choice([30.0, 30.0, 30.0, 1.0e10, float("inf")])
     if p_strategy_objects and rng.random() < p_strategy_objects:
         cand = [x for x in (["default"] if default else []) + cs if x not in legacy]
         cfg["strategy_objects"] = [x for x in cand if rng.random() < 0.7]
